@@ -1,10 +1,10 @@
 (* C09 — Every accepted call to an embedded contract completes or refunds.
    Only statements; each is closed by a lemma proved in theories/. *)
-From ZV Require Import Prelude GoSem Abi AbiProofs VmReceive VmReceiveProofs.
+From ZV Require Import Prelude GoSem Abi AbiProofs VmReceive VmReceiveProofs Emb EmbProofs.
 From ZV.gen Require Import Consts.
 Open Scope Z_scope.
 
-(* ABI decoding (unpack.go / argument.go / abi.go) of any well-formed type on ANY byte string: every slice
+(* ---- ABI decoding (unpack.go / argument.go / abi.go): for any well-formed type, on ANY byte string, every slice
    expression and index is in range, whatever offsets and lengths the data claims *)
 Theorem C09_abi_total : forall ty data,
   wf_ty ty -> Forall is_byte data -> len data < MaxData -> unpack ty data <> UPanic.
@@ -12,23 +12,27 @@ Proof. exact unpack_total. Qed.
 
 Theorem C09_abi_method_total : forall sel tys input,
   Forall wf_ty tys -> tuple_words tys <= MaxTuple -> Forall is_byte input -> len input < MaxData ->
-  unpack_method sel tys input <> UPanic /\ unpack_empty_method sel input <> UPanic.
-Proof. intros. split; [apply unpack_method_total; assumption | apply unpack_empty_method_total]. Qed.
+  unpack_method sel tys input <> UPanic.
+Proof. exact unpack_method_total. Qed.
+
+Theorem C09_abi_empty_method_total : forall sel input, unpack_empty_method sel input <> UPanic.
+Proof. exact unpack_empty_method_total. Qed.
 
 (* every ABI type that occurs in the embedded contracts (no fixed arrays, no bytesN) is well formed *)
-Theorem C09_abi_types_in_use_wf : forall t, in_use t = true -> wf_ty t /\ words t = 1.
-Proof. intros t H. split; [apply in_use_wf | apply in_use_words]; exact H. Qed.
+Theorem C09_abi_types_in_use_wf : forall t, in_use t = true -> wf_ty t.
+Proof. exact in_use_wf. Qed.
 
-(* generateEmbeddedReceive: if the methods of the table do not panic and keep their frame, the receive block is
-   produced, it either applies the call or refunds exactly (amount, token) to the sender with storage and
-   balances as before, and the inbox cursor advances by exactly one *)
-Theorem C09_vm_completes : forall (cstate : Type) dest_check (lookup : send -> lres cstate) a s,
-  table_ok cstate dest_check lookup -> nonneg cstate a -> send_ok s -> dest_check (refund_of s) = None ->
-  outcome_ok cstate a s (generate_receive cstate dest_check lookup a s).
+(* ---- generateEmbeddedReceive, for ANY method table whose methods do not panic, leave the sequencer alone and
+   produce well-formed descendants (table_ok; J is any invariant the table maintains): the receive block is
+   produced; it either applies the call or refunds exactly (amount, token) to the sender with storage and balances
+   as before; the inbox cursor advances by exactly one *)
+Theorem C09_vm_completes : forall (cstate : Type) dest_check (J : cacct cstate -> Prop) (lookup : send -> lres cstate) a s,
+  table_ok cstate dest_check J lookup -> nonneg cstate a -> J a -> send_ok s -> dest_check (refund_of s) = None ->
+  outcome_ok cstate J a s (generate_receive cstate dest_check lookup a s).
 Proof. exact vm_completes. Qed.
 
-Theorem C09_vm_no_panic_no_internal_error : forall (cstate : Type) dest_check (lookup : send -> lres cstate) a s,
-  table_ok cstate dest_check lookup -> nonneg cstate a -> send_ok s -> dest_check (refund_of s) = None ->
+Theorem C09_vm_no_panic_no_internal_error : forall (cstate : Type) dest_check (J : cacct cstate -> Prop) (lookup : send -> lres cstate) a s,
+  table_ok cstate dest_check J lookup -> nonneg cstate a -> J a -> send_ok s -> dest_check (refund_of s) = None ->
   generate_receive cstate dest_check lookup a s <> RPanic /\ forall c, generate_receive cstate dest_check lookup a s <> RInternal c.
 Proof. exact vm_no_panic. Qed.
 
@@ -41,20 +45,96 @@ Theorem C09_method_removed_refunds : forall (cstate : Type) dest_check (lookup :
              forall z, bal_get (a_bal a') z = bal_get (a_bal a) z.
 Proof. exact method_removed_refunds. Qed.
 
-(* record of the defect fixed in /repo (ea6a52e): the old order of Save() made that path panic *)
+(* record of the defect fixed in /repo (ea6a52e): with the old position of Save() that path panicked *)
 Theorem C09_method_removed_prefix_refuted : forall (cstate : Type) dest_check (lookup : send -> lres cstate) a s,
   lookup s = LNotFound -> generate_receive_prefix cstate dest_check lookup a s = RPanic.
 Proof. exact method_removed_prefix_panics. Qed.
 
 (* no accepted input wedges the inbox: every queued call gets its receive block, whatever came before *)
-Theorem C09_next_processable : forall (cstate : Type) dest_check (lookup : send -> lres cstate) q,
-  table_ok cstate dest_check lookup ->
+Theorem C09_next_processable : forall (cstate : Type) dest_check (J : cacct cstate -> Prop) (lookup : send -> lres cstate) q,
+  table_ok cstate dest_check J lookup ->
   Forall (fun s => send_ok s /\ dest_check (refund_of s) = None) q ->
-  forall a, nonneg cstate a ->
+  forall a, nonneg cstate a -> J a ->
   exists a', process_all cstate dest_check lookup a q = Some a' /\
-             a_cursor a' = a_cursor a + Z.of_nat (length q) /\ nonneg cstate a'.
+             a_cursor a' = a_cursor a + Z.of_nat (length q) /\ nonneg cstate a' /\ J a'.
 Proof. exact inbox_never_wedged. Qed.
 
+(* ---- the modelled contracts satisfy table_ok, hence complete or refund, for every contract state satisfying the
+   contract's storage invariant (which every step re-establishes) *)
+Theorem C09_plasma_completes : forall dc e a s,
+  nonneg pstore a -> J_plasma a -> send_ok s -> dc (refund_of s) = None ->
+  outcome_ok pstore J_plasma a s (generate_receive pstore dc (plasma_lookup e) a s).
+Proof. exact plasma_completes. Qed.
+Theorem C09_stake_completes : forall dc e a s,
+  env_ok e -> nonneg sstore a -> J_stake a -> send_ok s -> dc (refund_of s) = None ->
+  outcome_ok sstore J_stake a s (generate_receive sstore dc (stake_lookup e) a s).
+Proof. exact stake_completes. Qed.
+Theorem C09_htlc_completes : forall dc H e a s,
+  nonneg hstore a -> J_htlc a -> send_ok s -> dc (refund_of s) = None ->
+  outcome_ok hstore J_htlc a s (generate_receive hstore dc (htlc_lookup H e) a s).
+Proof. exact htlc_completes. Qed.
+Theorem C09_common_completes : forall dc self a s,
+  nonneg cstore a -> J_common a -> send_ok s -> dc (refund_of s) = None ->
+  outcome_ok cstore J_common a s (generate_receive cstore dc (common_lookup self) a s).
+Proof. exact common_completes. Qed.
+Theorem C09_token_completes : forall dc a s,
+  nonneg tstore a -> J_token a -> send_ok s -> dc (refund_of s) = None ->
+  outcome_ok tstore J_token a s (generate_receive tstore dc token_lookup a s).
+Proof. exact token_completes. Qed.
+Theorem C09_htlc_inbox_never_wedged : forall dc H e q,
+  Forall (fun s => send_ok s /\ dc (refund_of s) = None) q ->
+  forall a, nonneg hstore a -> J_htlc a ->
+  exists a', process_all hstore dc (htlc_lookup H e) a q = Some a' /\ a_cursor a' = a_cursor a + Z.of_nat (length q) /\
+             nonneg hstore a' /\ J_htlc a'.
+Proof. exact htlc_inbox_never_wedged. Qed.
+
+(* ---- per method: once ValidateSendBlock accepted the send, ReceiveBlock does not panic, in every contract state *)
+Theorem C09_common_deposit_qsr_no_panic : forall a s x, deposit_qsr_validate s = VOk x -> deposit_qsr_receive a s <> MPanic.
+Proof. exact deposit_qsr_no_panic. Qed.
+Theorem C09_common_withdraw_qsr_no_panic : forall self a s x, withdraw_qsr_validate s = VOk x -> withdraw_qsr_receive self a s <> MPanic.
+Proof. exact withdraw_qsr_no_panic. Qed.
+Theorem C09_common_collect_reward_no_panic : forall a s x, collect_validate s = VOk x -> collect_receive a s <> MPanic.
+Proof. exact collect_no_panic. Qed.
+Theorem C09_common_donate_no_panic : forall S (a : cacct S) s x, donate_validate s = VOk x -> donate_receive a s <> MPanic.
+Proof. exact donate_no_panic. Qed.
+Theorem C09_plasma_fuse_no_panic : forall e a s x, fuse_validate e s = VOk x -> fuse_receive e a s <> MPanic.
+Proof. exact fuse_no_panic. Qed.
+Theorem C09_plasma_cancel_fuse_no_panic : forall e a s x, cancel_fuse_validate s = VOk x -> cancel_fuse_receive e a s <> MPanic.
+Proof. exact cancel_fuse_no_panic. Qed.
+Theorem C09_stake_stake_no_panic : forall e a s x, stake_validate e s = VOk x -> stake_receive e a s <> MPanic.
+Proof. exact stake_no_panic. Qed.
+Theorem C09_stake_cancel_no_panic : forall e a s x, cancel_stake_validate s = VOk x -> cancel_stake_receive e a s <> MPanic.
+Proof. exact cancel_stake_no_panic. Qed.
+Theorem C09_htlc_create_no_panic : forall e a s x, create_validate s = VOk x -> create_receive e a s <> MPanic.
+Proof. exact create_htlc_no_panic. Qed.
+Theorem C09_htlc_reclaim_no_panic : forall e a s x, reclaim_validate s = VOk x -> reclaim_receive e a s <> MPanic.
+Proof. exact reclaim_htlc_no_panic. Qed.
+Theorem C09_htlc_unlock_no_panic : forall H e a s x, unlock_validate s = VOk x -> unlock_receive H e a s <> MPanic.
+Proof. exact unlock_htlc_no_panic. Qed.
+Theorem C09_htlc_proxy_unlock_no_panic : forall (allow : bool) (a : cacct hstore) (s : send) x,
+  proxy_validate (if allow then Sel_htlc_AllowProxyUnlock else Sel_htlc_DenyProxyUnlock) s = VOk x -> proxy_receive allow a s <> MPanic.
+Proof. exact proxy_htlc_no_panic. Qed.
+Theorem C09_token_mint_no_panic : forall a s x, mint_validate s = VOk x -> mint_receive a s <> MPanic.
+Proof. exact mint_no_panic. Qed.
+Theorem C09_token_update_no_panic : forall a s x, update_token_validate s = VOk x -> update_token_receive a s <> MPanic.
+Proof. exact update_token_no_panic. Qed.
+(* Burn debits what was just credited: the balance hypothesis is discharged inside C09_token_completes *)
+Theorem C09_token_burn_no_panic : forall a s x,
+  burn_validate s = VOk x -> s_amount s <= bal_get (a_bal a) (s_zts s) -> burn_receive a s <> MPanic.
+Proof. exact burn_no_panic. Qed.
+
+(* non-vacuity *)
 Example C09_hostile_offset_is_an_error :
   unpack TString (be_bytes 32 (2 ^ 63 - 32)) = UErr E_slice_offset.
 Proof. vm_compute. reflexivity. Qed.
+Example C09_fuse_applies :
+  let s := {| s_from := repeat 1 20; s_from_embedded := false; s_amount := 5000000000; s_zts := ZtsQsr;
+              s_data := Sel_plasma_Fuse ++ repeat 0 12 ++ repeat 7 20; s_hash := repeat 9 32 |} in
+  let e := {| e_now := 100; e_height := 10; c_FuseMinAmount := 1000000000; c_CostPerFusionUnit := 1000000000; c_FuseExpiration := 6;
+              c_StakeMinAmount := 1; c_StakeTimeMin := 1; c_StakeTimeMax := 2; c_StakeTimeUnit := 1; c_TokenIssueAmount := 1 |} in
+  match generate_receive pstore (fun _ => None) (plasma_lookup e) {| a_bal := []; a_store := {| p_fusions := []; p_fused := [] |}; a_cursor := 0 |} s with
+  | RApplied a' [] => a_cursor a' = 1 /\ bal_get (a_bal a') ZtsQsr = 5000000000 /\
+                      p_fused (a_store a') = [(repeat 7 20, 5000000000)]
+  | _ => False
+  end.
+Proof. vm_compute. repeat split. Qed.
